@@ -268,6 +268,65 @@ func scenCmds(out *scenOut, r *rng, thorough bool) {
 	for i := 0; i < runs; i++ {
 		cmdsOnce(out, r.fork(), i)
 	}
+	reps := 3
+	if thorough {
+		reps = 20
+	}
+	for i := 0; i < reps; i++ {
+		scratchReuse(out, i)
+	}
+}
+
+// scratchReuse: a model that keeps one scratch []Cmd and returns
+// Batch(scratch...) from consecutive Updates. The second Update is processed
+// after the first Batch was returned but before its BatchMsg reaches the loop.
+func scratchReuse(out *scenOut, idx int) {
+	ctl := newRecCtl()
+	var counts [4]int32
+	mk := func(k int) tea.Cmd {
+		return func() tea.Msg { atomic.AddInt32(&counts[k], 1); return cmdMsg{fmt.Sprintf("r%d", k)} }
+	}
+	scratch := make([]tea.Cmd, 2)
+	g := newGate(true)
+	defer g.open()
+	ctl.gates["update:u0.1"] = g
+	ctl.onUpdate = func(m tea.Msg, v int) tea.Cmd {
+		switch msgName(m) {
+		case "u0.1":
+			scratch[0], scratch[1] = mk(0), mk(1)
+			return tea.Batch(scratch...)
+		case "u0.2":
+			scratch[0], scratch[1] = mk(2), mk(3)
+			return tea.Batch(scratch...)
+		}
+		return nil
+	}
+	run := startProgram(ctl, nil, tea.WithInput(nil), tea.WithoutSignalHandler())
+	go run.p.Send(userMsg{0, 1})
+	if !g.waitArrived(3 * time.Second) {
+		return
+	}
+	second := make(chan struct{})
+	go func() { run.p.Send(userMsg{0, 2}); close(second) }()
+	time.Sleep(3 * time.Millisecond) // the second message is waiting in Send when the first Update returns
+	g.open()
+	<-second
+	waitFor(2*time.Second, func() bool { return ctl.log.count("update-exit", "c:r") >= 4 })
+	time.Sleep(2 * time.Millisecond)
+	run.p.Quit()
+	run.wait(3 * time.Second)
+	desc := fmt.Sprintf("scratch-reuse#%d: Update(u0.1) returns Batch(scratch...) with scratch=[a,b]; Update(u0.2) rewrites scratch=[c,d] and returns Batch(scratch...)", idx)
+	out.record("scratch-reuse", desc)
+	got := fmt.Sprint(atomic.LoadInt32(&counts[0]), atomic.LoadInt32(&counts[1]), atomic.LoadInt32(&counts[2]), atomic.LoadInt32(&counts[3]))
+	if got != "1 1 1 1" {
+		out.fail(finding{Property: "C02", Class: "new", What: "commands of a Batch built from a reused slice are not each invoked exactly once", Input: desc, Expected: "1 1 1 1", Observed: got})
+	}
+	for k := 0; k < 4; k++ {
+		if n := ctl.log.count("update-enter", fmt.Sprintf("c:r%d ", k)); n != 1 {
+			out.fail(finding{Property: "C02", Class: "new", What: "result of a command of a Batch built from a reused slice not delivered exactly once", Input: desc, Expected: "1", Observed: fmt.Sprint(n)})
+			break
+		}
+	}
 }
 
 func cmdsOnce(out *scenOut, r *rng, idx int) {
